@@ -52,12 +52,12 @@ Proof. unfold gw_class. repeat match goal with |- context [if ?b then _ else _] 
 Definition ordered_lpar (p : lpar (T:=R)) : Prop :=
   0 < l_wmin p /\ l_wmin p < l_w p /\ l_w p <= l_porges p /\ l_porges p < 1.
 
-Lemma hydro_R (t : texture) (fk nfk pv : Z) (grw c : R) :
-  let h := hydro (T:=R) t fk nfk pv grw c in
+Lemma hydro_R (t : texture) (fk nfk pv : Z) (grw c st : R) :
+  let h := hydro (T:=R) t fk nfk pv grw c st in
   let x := hydro_z t fk nfk pv (gw_class grw) (corg_class c) in
   ho_lim h = IZR (fst (fst x)) / 200 /\ ho_feldw h = IZR (snd (fst x)) / 200 /\ ho_prges h = IZR (snd x) / 200 /\
   ho_normfk h = IZR fk / 100 /\
-  ho_wred h = (IZR (fk - nfk) + (if tex_is_sand t then 6 / 10 else 66 / 100) * IZR nfk) / 100.
+  ho_wred h = (IZR (fk - nfk) + (if tex_is_sand t then 6 / 10 else 66 / 100) * IZR nfk) / 100 * (1 - st).
 Proof.
   unfold hydro, hydro_z. rewrite krr_krg_R.
   destruct (krr_krg_z (tex_kind t) (gw_class grw) (corg_class c)) as [a b]. cbn [fst snd ho_lim ho_feldw ho_prges ho_normfk ho_wred].
@@ -102,7 +102,7 @@ Theorem table_check_ordered rows both bad : table_check rows both bad = true ->
   forall t ld (grw c s : R), In t both -> (1 <= ld <= 5)%Z -> 0 <= s < 1 ->
   is_bad bad (t, ld, corg_class c, gw_class grw) = false ->
   exists fk nfk pv, triple_of rows t ld = Some (fk, nfk, pv) /\
-    ordered_lpar (route_table (hydro t fk nfk pv grw c) s).
+    ordered_lpar (route_table (hydro t fk nfk pv grw c s) s).
 Proof.
   intros H t ld grw c s Ht Hld Hs Hbad.
   pose proof (class_ok_of_check _ _ _ t ld grw c H Ht Hld) as Hc. unfold class_ok in Hc.
@@ -111,28 +111,33 @@ Proof.
   rewrite Hbad in Hc. cbn [andb] in Hc. apply andb_true_iff in Hc. destruct Hc as [Ho _].
   assert (Ho' : ordered_z (hydro_z t fk nfk pv (gw_class grw) (corg_class c)) = true) by (destruct (ordered_z _); [reflexivity | discriminate]).
   clear Ho; rename Ho' into Ho.
-  pose proof (hydro_R t fk nfk pv grw c) as HR. cbv zeta in HR. destruct HR as (E1 & E2 & E3 & _ & _).
+  pose proof (hydro_R t fk nfk pv grw c s) as HR. cbv zeta in HR. destruct HR as (E1 & E2 & E3 & _ & _).
   pose proof (ordered_z_R _ s Ho Hs) as HZ.
   destruct (hydro_z t fk nfk pv (gw_class grw) (corg_class c)) as [[lim feldw] pv2]. cbn [fst snd] in *.
   unfold ordered_lpar, route_table. cbn [l_w l_wmin l_porges]. rsimp. rewrite E1, E2, E3. exact HZ.
 Qed.
 
+(* the threshold of the first horizon lies strictly between WMIN[0] and W[0] of the table route, stones included
+   (since d7a6e7d all three carry the factor 1 - stone fraction) *)
 Theorem table_check_wred rows both bad : table_check rows both bad = true ->
-  forall t ld (grw c : R), In t both -> (1 <= ld <= 5)%Z ->
+  forall t ld (grw c s : R), In t both -> (1 <= ld <= 5)%Z -> 0 <= s < 1 ->
   exists fk nfk pv, triple_of rows t ld = Some (fk, nfk, pv) /\
-    let h := hydro t fk nfk pv grw c in ho_lim h < ho_wred h < ho_feldw h.
+    let h := hydro t fk nfk pv grw c s in
+    let p := route_table h s in l_wmin p < ho_wred h < l_w p.
 Proof.
-  intros H t ld grw c Ht Hld.
+  intros H t ld grw c s Ht Hld Hs.
   pose proof (class_ok_of_check _ _ _ t ld grw c H Ht Hld) as Hc. unfold class_ok in Hc.
   destruct (triple_of rows t ld) as [[[fk nfk] pv]|]; [|discriminate].
   exists fk, nfk, pv. split; [reflexivity|].
   apply andb_true_iff in Hc. destruct Hc as [_ Hw].
-  pose proof (hydro_R t fk nfk pv grw c) as HR. cbv zeta in HR. destruct HR as (E1 & E2 & _ & _ & E5).
-  cbv zeta. rewrite E1, E2, E5. unfold hydro_z, wred_z in *.
+  pose proof (hydro_R t fk nfk pv grw c s) as HR. cbv zeta in HR. destruct HR as (E1 & E2 & _ & _ & E5).
+  cbv zeta. unfold route_table. cbn [l_w l_wmin]. rsimp. rewrite E1, E2, E5. unfold hydro_z, wred_z in *.
   destruct (krr_krg_z (tex_kind t) (gw_class grw) (corg_class c)) as [a b]. cbn [fst snd].
   apply andb_true_iff in Hw. destruct Hw as [Hn Hw]. apply Z.ltb_lt in Hn. apply IZR_lt in Hn.
   rewrite !plus_IZR, !mult_IZR, !minus_IZR.
-  destruct (tex_is_sand t); apply Z.ltb_lt in Hw; apply IZR_lt in Hw; rewrite !plus_IZR, !mult_IZR in Hw; lra.
+  assert (H1s : 0 < 1 - s) by lra.
+  destruct (tex_is_sand t); apply Z.ltb_lt in Hw; apply IZR_lt in Hw; rewrite !plus_IZR, !mult_IZR in Hw;
+    split; apply Rmult_lt_compat_r; lra.
 Qed.
 
 (* ------------------------------------------------------------------ *)
@@ -168,13 +173,13 @@ Proof.
   pose proof (wred_between_lemma sand (nth 0 (P_wmin b) 0 * 100) (nth 0 (P_w b) 0 * 100) ltac:(lra)). lra.
 Qed.
 
-(* table route with stones in the first horizon: WRED is not scaled, the parameters are.  ULS, density 1, 30 % stones *)
-Lemma wred_table_stones_witness :
-  let h := hydro (T:=R) ("U", "L", "S")%char 39 26 48 10 1 in
+(* the former counterexample (ULS, density 1, 30 % stones: WRED 0.3016 above W[0] 0.273 before d7a6e7d), now ordered *)
+Lemma wred_table_stones_instance :
+  let h := hydro (T:=R) ("U", "L", "S")%char 39 26 48 10 1 (3 / 10) in
   let p := route_table h (3 / 10) in
-  ordered_lpar p /\ l_w p < ho_wred h.
+  ordered_lpar p /\ l_wmin p < ho_wred h < l_w p.
 Proof.
-  cbv zeta. pose proof (hydro_R ("U", "L", "S")%char 39 26 48 10 1) as HR. cbv zeta in HR.
+  cbv zeta. pose proof (hydro_R ("U", "L", "S")%char 39 26 48 10 1 (3 / 10)) as HR. cbv zeta in HR.
   assert (Hg : gw_class (T:=R) 10 = 2%nat).
   { unfold gw_class. runfold. split_cmp. reflexivity. }
   assert (Hc : corg_class (T:=R) 1 = 1%nat).
@@ -182,7 +187,7 @@ Proof.
   assert (Hz : hydro_z ("U", "L", "S")%char 39 26 48 2 1 = (26, 78, 96)%Z) by (vm_compute; reflexivity).
   assert (Hs : tex_is_sand ("U", "L", "S")%char = false) by reflexivity.
   rewrite Hg, Hc, Hz, Hs in HR. cbn [fst snd] in HR.
-  set (h := hydro (T:=R) ("U", "L", "S")%char 39 26 48 10 1) in *.
+  set (h := hydro (T:=R) ("U", "L", "S")%char 39 26 48 10 1 (3 / 10)) in *.
   destruct HR as (E1 & E2 & E3 & _ & E5).
   unfold ordered_lpar, route_table. cbn [l_w l_wmin l_porges]. rsimp. rewrite E1, E2, E3, E5.
   replace (IZR (39 - 26)) with 13 by (rewrite minus_IZR; lra). lra.
